@@ -93,6 +93,22 @@ def closedcase(k):
     return "def main(): i64 { %s 7 }\n" % body
 
 
+def callnest(k):
+    """a branch point bound by a let whose continuation is a CALL with a nested such term as argument, k deep
+    (the consumer of each conditional is `mu~x.<call g(x, E)>` with arbitrary code E in argument position)"""
+    e = "x"
+    for i in range(1, k + 1):
+        e = "(let y%d: i64 = if x < %d { x } else { %d }; g(y%d, %s))" % (i, i, i, i, e)
+    return "def g(a: i64, b: i64): i64 { a + b }\ndef f(x: i64): i64 { %s }\n" % e
+
+
+def callnestcase(k):
+    e = "x"
+    for i in range(1, k + 1):
+        e = "(let y%d: i64 = c.case { Red => %d, Green => x, Blue => x + %d, Gray => 0 }; g(y%d, %s))" % (i, i, i, i, e)
+    return "def g(a: i64, b: i64): i64 { a + b }\ndef f(x: i64, c: Color): i64 { %s }\n" % e
+
+
 def codata(k):
     body = []
     for i in range(k):
@@ -131,6 +147,8 @@ FAMILIES = {
     "nestcase": (nestcase, "f(arg, Cons(arg, Nil))"),
     "letcase": (letcase, "f(arg)"),
     "letcallcase": (letcallcase, "f(arg)"),
+    "callnest": (callnest, "f(arg)"),
+    "callnestcase": (callnestcase, "f(arg, Blue)"),
     "closedif": (closedif, None),      # the family IS main (only main has no return covariable)
     "closedcase": (closedcase, None),
     "codata": (codata, "f(arg)"),
